@@ -1,29 +1,37 @@
 #!/usr/bin/env python3
-"""Regenerate /verif/MANIFEST.json from the table below (keeps it valid at all times)."""
-import json, os
+"""Regenerate /verif/MANIFEST.json and coq/_CoqProject from meta/Cxx.json (one file per INTEGRATED property).
+
+A property is integrated when meta/Cxx.json, harness/props/Cxx.py and coq/Properties/Cxx.v all exist.  _CoqProject lists the
+import cone of the integrated Properties files (plus Base), so setup_cmd builds exactly the development the checks audit.
+Optional meta keys: "not_applicable_reason" (then the property is listed under not_applicable instead of checks).
+"""
+import json, os, re
 V = os.path.dirname(os.path.dirname(os.path.abspath(__file__)))
+C = os.path.join(V, "coq")
 props = [json.loads(l) for l in open(os.path.join(V, "properties.jsonl"))]
 
 COMMON_NOTE = ("Trusted: Coq 8.16.1 kernel/coqc, vm_compute (no native_compute, no extraction); the theorems are about hand-written Gallina "
                "models, tied to /repo/src only by the behavioural correspondence (differential testing bounded by its generator) run on every "
                "invocation; harness (generators, float<->rational conversion, printers, comparison rules). ")
-
-# id -> (technique, level text, level note, design ref)
-CLAIMED = {
- "C12": ("Coq theorems on a generic-ring model of build_hank (entry formulas, bilinearity, LQ Gram identity) + vm_compute correspondence + impulse-basis oracle",
-         "Every entry of the moment-matrix and Toeplitz Hankel matrices is proved (all sizes, all data, any commutative ring) to be one uniform-weight "
-         "single-lag correlation with lag i+j+1 / br+i-j, bilinear, with (br+1)l x (br+1)r layout; the data-driven Gram identity is proved from the LQ contract. "
-         "The model is tied to the code by exact evaluation on random dyadic data and by measuring the code on the full unit-impulse basis.",
-         COMMON_NOTE + "No axioms (all C12 theorems closed under the global context). numpy.linalg.qr contract is a hypothesis of C12_dat_gram.",
-         "DESIGN.md 5/C12"),
-}
 NOT_YET = "check not built yet (build in progress, see DESIGN.md section 9)"
 
-checks, na = [], []
+def cone(f, seen):
+    if f in seen or not os.path.exists(os.path.join(C, f)):
+        return
+    seen.add(f)
+    for grp, names in re.findall(r"From PyOMA\.(\w+) Require (?:Import|Export) ([^.]*)\.", open(os.path.join(C, f)).read()):
+        for n in names.split():
+            cone("%s/%s.v" % (grp, n), seen)
+
+checks, na, files = [], [], set("Base/" + f for f in os.listdir(os.path.join(C, "Base")) if f.endswith(".v"))
 for p in props:
     i = p["id"]
-    if i in CLAIMED and os.path.exists(os.path.join(V, "harness", "props", i + ".py")):
-        tech, text, note, ref = CLAIMED[i]
+    mp = os.path.join(V, "meta", i + ".json")
+    meta = json.load(open(mp)) if os.path.exists(mp) else None
+    ok = meta and "not_applicable_reason" not in meta and os.path.exists(os.path.join(V, "harness", "props", i + ".py")) \
+        and os.path.exists(os.path.join(C, "Properties", i + ".v"))
+    if ok:
+        cone("Properties/%s.v" % i, files)
         checks.append({
             "property_id": i,
             "quick_cmd": "cd /verif && /venv/bin/python harness/check.py %s --tier quick" % i,
@@ -31,12 +39,12 @@ for p in props:
             "evidence_file": "/verif/evidence/%s.json" % i,
             "replay_cmd_template": "cd /verif && /venv/bin/python harness/check.py %s --replay {path}" % i,
             "engine": "coq-model+correspondence",
-            "level_claimed": {"category": "proof", "text": text, "design_ref": ref},
-            "level_note": note,
-            "technique": tech,
+            "level_claimed": {"category": meta.get("category", "proof"), "text": meta["level_text"], "design_ref": meta.get("design_ref", "DESIGN.md 5/" + i)},
+            "level_note": COMMON_NOTE + meta["level_note"],
+            "technique": meta["technique"],
         })
     else:
-        na.append({"property_id": i, "reason": NOT_YET})
+        na.append({"property_id": i, "reason": (meta or {}).get("not_applicable_reason", NOT_YET)})
 m = {
  "version": 1,
  "setup_cmd": "cd /verif/coq && coq_makefile -f _CoqProject -o Makefile && timeout 3000 make -j16",
@@ -50,4 +58,7 @@ m = {
  "not_applicable": na,
 }
 json.dump(m, open(os.path.join(V, "MANIFEST.json"), "w"), indent=1)
-print("checks:", [c["property_id"] for c in checks])
+order = {"Base": 0, "Model": 1, "Proofs": 2, "Properties": 3}
+fl = sorted(files, key=lambda f: (order.get(f.split("/")[0], 9), f))
+open(os.path.join(C, "_CoqProject"), "w").write("-R . PyOMA\n" + "\n".join(fl) + "\n")
+print("checks:", [c["property_id"] for c in checks], "| coq files:", len(fl))
